@@ -41,3 +41,106 @@ def make_interp(mirdir, srcdir, crates=None, feas_timeout_ms=1500):
         if os.path.exists(mir):
             I.load_crate(crate, mir)
     return I
+
+
+# ---------------------------------------------------------------------- fresh MIR from /repo
+import fcntl
+import shutil
+import subprocess
+import time
+import hashlib
+
+VERIF = os.path.dirname(os.path.dirname(os.path.abspath(__file__)))
+REPO = os.environ.get('VERIF_REPO', '/repo')
+CACHE = os.path.join(VERIF, '.cache')
+WORK = os.path.join(VERIF, '.work')
+
+# crates each contract's handlers can reach (callee bodies needed by the interpreter)
+DEPS = {
+    'basset_sei_hub': ['basset_sei_hub', 'basset_sei_validators_registry', 'basset', 'cosmwasm_bignumber', 'signed_integer'],
+    'basset_sei_reward': ['basset_sei_reward', 'basset', 'cosmwasm_bignumber'],
+    'basset_sei_rewards_dispatcher': ['basset_sei_rewards_dispatcher', 'basset'],
+    'basset_sei_validators_registry': ['basset_sei_validators_registry', 'basset'],
+    'basset_sei_token_bsei': ['basset_sei_token_bsei', 'cw20_legacy', 'basset'],
+    'basset_sei_token_stsei': ['basset_sei_token_stsei', 'cw20_base', 'basset'],
+}
+
+
+class BuildError(Exception):
+    pass
+
+
+def expand(crates):
+    out = []
+    for c in crates or CRATES:
+        for d in DEPS.get(c, [c]):
+            if d not in out:
+                out.append(d)
+    return out
+
+
+def prepare(crates=None, keep=False):
+    """copy /repo's working tree and dump the MIR of the needed crates. returns a dict describing the work dir."""
+    os.makedirs(CACHE, exist_ok=True)
+    os.makedirs(WORK, exist_ok=True)
+    run = os.path.join(WORK, 'run-%d-%d' % (os.getpid(), int(time.time() * 1000) % 100000000))
+    src = os.path.join(run, 'src')
+    mir = os.path.join(run, 'mir')
+    os.makedirs(mir)
+    t0 = time.time()
+    subprocess.check_call(['rsync', '-a', '--delete', '--exclude', 'target', '--exclude', '.git', '--exclude',
+                           'artifacts', REPO + '/', src + '/'])
+    env = dict(os.environ)
+    env['CARGO_TARGET_DIR'] = os.path.join(CACHE, 'mir-target')
+    env['CARGO_NET_OFFLINE'] = 'true'
+    env.pop('RUSTFLAGS', None)
+    env.pop('RUSTUP_TOOLCHAIN', None)
+    need = expand(crates)
+    times = {}
+    lock = open(os.path.join(CACHE, 'cargo.lock'), 'w')
+    fcntl.flock(lock, fcntl.LOCK_EX)
+    try:
+        for c in need:
+            name, rel = CRATES[c]
+            out = os.path.join(mir, name + '.mir')
+            t1 = time.time()
+            if rel is None:
+                cwd = os.path.join(src, 'contracts/basset_sei_token_stsei')
+                cmd = ['cargo', '+nightly', 'rustc', '--offline', '-p', 'cw20-base@0.16.0', '--lib', '--',
+                       '-Zunpretty=mir', '-C', 'debug-assertions=off', '-C', 'overflow-checks=on']
+            else:
+                cwd = os.path.join(src, rel)
+                os.utime(os.path.join(cwd, 'src/lib.rs'))
+                cmd = ['cargo', '+nightly', 'rustc', '--offline', '--lib']
+                if rel.startswith('contracts/'):
+                    cmd += ['--features', 'library']
+                cmd += ['--', '-Zunpretty=mir', '-C', 'debug-assertions=off', '-C', 'overflow-checks=on']
+            with open(out, 'w') as fo:
+                p = subprocess.run(cmd, cwd=cwd, env=env, stdout=fo, stderr=subprocess.PIPE, text=True)
+            if p.returncode != 0 or os.path.getsize(out) == 0:
+                raise BuildError('MIR dump of %s failed (rc=%d):\n%s' % (c, p.returncode, p.stderr[-3000:]))
+            times[c] = round(time.time() - t1, 1)
+    finally:
+        fcntl.flock(lock, fcntl.LOCK_UN)
+        lock.close()
+    return {'run': run, 'src': src, 'mir': mir, 'crates': need, 'dump_s': round(time.time() - t0, 1), 'times': times}
+
+
+def cleanup(work):
+    shutil.rmtree(work['run'], ignore_errors=True)
+
+
+def load_parsed(work, crates=None):
+    """parse MIR + type tables once; Interp instances are then cheap to create."""
+    I = make_interp(work['mir'], work['src'], expand(crates))
+    return I
+
+
+def interp_from_parsed(P, feas_timeout_ms=1500):
+    I = Interp(feas_timeout_ms)
+    I.crates = P.crates
+    I.bylast = P.bylast
+    I.allocs = P.allocs
+    I.types = P.types
+    I.closure_index = P.closure_index
+    return I
